@@ -796,7 +796,7 @@ class Engine:
 
     def closure_fn(self, closure_ty):
         for name, f in self.fns.items():
-            if "{closure#" in name and f.args and f.args[0].split(": ", 1)[1] == closure_ty:
+            if "{closure#" in name and f.args and f.args[0].split(": ", 1)[1] in (closure_ty, "&mut " + closure_ty, "&" + closure_ty):
                 return f
         raise Unsupported("closure body for " + closure_ty)
 
